@@ -163,10 +163,17 @@ def integ(kind, N, overlapping=False):
     return h
 
 
-def the_case(N):
+class FalsyP(P):
+    """a domain element whose truth value is False (e.g. an empty container)"""
+
+    def __bool__(self):
+        return False
+
+
+def the_case(N, falsy=False):
     def h(ctx):
         n = ctx.choice("n", N + 1)
-        objs = [P(ctx.fresh_int("a%d" % i)) for i in range(n)]
+        objs = [(FalsyP if falsy and ctx.flag("falsy%d" % i) else P)(ctx.fresh_int("a%d" % i)) for i in range(n)]
         k = ctx.fresh_int("k")
         x = let(P, objs, name="x")
         q = the(entity(x, x.a > k))
@@ -200,6 +207,7 @@ def cases(tier, seed):
         M_ = 3 if tier == "quick" else 4
         cs.append(Case("an:%s|two overlapping evaluations|N<=%d" % (k, M_), integ(k, M_, overlapping=True), key="an:%s|overlapping" % k, reset=eql_reset, timeout=600, max_paths=200000, meta=dict(N=M_)))
     cs.append(Case("the|N<=%d" % N, the_case(N), key="the", reset=eql_reset, timeout=600, meta=dict(N=N)))
+    cs.append(Case("the|some elements are falsy objects|N<=3", the_case(3, falsy=True), key="the|falsy", reset=eql_reset, timeout=600, meta=dict(N=3)))
     return cs
 
 
